@@ -289,8 +289,9 @@ MANIFEST = {
     "category": "proof",
     "engine": "go2coq+tla2coq+coq+go-harness",
     "technique": "translation validation: both models regenerated from the sources on every run (tools/go2coq, tools/tla2coq), "
-                 "one Coq theorem per label (normal-form equality by vm_compute through a checker proved sound once), "
-                 "differential execution of the two models as search oracle, real-Go step harness for locksvc",
+                 "one Coq theorem per label (normal-form equality by vm_compute through a checker proved sound once); search oracle = "
+                 "seed corpus of reachable states + one-step lookahead + differential walks of the two models; the regenerated Go model "
+                 "replayed against the real generated Go (locksvc, dqueue, pbkvs, raftkvs) and against a direct interpreter on every run",
     "text": ("For each of the 17 shipped spec/Go pairs whose TLA+ translation SANY accepts (11 systems/*, 6 *.gotests), coq/Gen/<sys>_equiv.v is "
              "regenerated on every run and holds, per label, `forall fuel r ks, run Dgo fuel (symex_go body) r ks = run Dtla fuel (symex_tla action) r ks` "
              "(all states, all selves, all CONSTANT interpretations, all either/with resolutions: same updated variables, next pc, prints, "
@@ -300,11 +301,15 @@ MANIFEST = {
              "each other (for locksvc also replayed on the real generated Go). The 3 remaining labels (gogen/bug_167) are a known finding with "
              "witnesses; no label is covered by differential execution only. One defect was repaired (stale TLA+ translation of proxy.tla)."),
     "level_note": ("Trusted: Coq kernel + vm_compute; SANY, stock pcal, go/parser; the two translators; coq/C02/Lang.v eval and Sem.v symex_go/symex_tla/subst "
-                   "(the semantics of each side is DEFINED as run o symex; agreement with a direct interpreter is not proved); the hand-written "
-                   "Bind_<sys>.v (mapping macros, instance bindings, renamed variables, scratch variables of old translations, checked never read "
-                   "unprimed); the state relation Go local = v[self], pc = pc[self]. Validated each run only for locksvc against the real generated "
-                   "Go (480 attempts quick). Not covered: ExprTests, bug_119, ProcedureSpaghetti (SANY rejects their TLA+ translation, so procedure "
-                   "calls have no modelled semantics), EmptyBlock; archetypes a spec never instantiates; the Scala compiler itself (absent offline: "
-                   "the claim is about the shipped pairs); errors of never-used temporaries; int32 wrap. A 'no-failing-input-found' report means the "
-                   "obligation broke but random walks (quick: 30x300 attempts) reached no distinguishing state."),
+                   "(the semantics of each side is DEFINED as run o symex; dtree_sound_go/tla are NOT proved: the substitution lemma needs fuel "
+                   "monotonicity of eval; instead run o symex_go is compared on every run with the direct environment-passing interpreter of "
+                   "coq/C02/Direct.v on walk states (quick: 5 systems, thorough: all 17) and with the REAL generated Go attempt by attempt "
+                   "(locksvc 480 exact-choice attempts, dqueue/pbkvs/raftkvs ~400 attempts through harness/steplib, for some choice vector within the "
+                   "observed ceilings); symex_tla has no second interpreter); the hand-written Bind_<sys>.v (mapping macros, instance bindings, renamed "
+                   "variables, scratch variables of old translations, checked never read unprimed); the state relation Go local = v[self], pc = pc[self]. "
+                   "Not covered: ExprTests, bug_119, ProcedureSpaghetti (SANY rejects their TLA+ translation, so procedure calls have no modelled "
+                   "semantics), EmptyBlock; archetypes a spec never instantiates; the Scala compiler itself (absent offline: the claim is about the "
+                   "shipped pairs); errors of never-used temporaries; int32 wrap. A 'no-failing-input-found' report means the obligation broke but "
+                   "neither the seed corpus (coverage-guided reachable states of pbkvs/raftkvs plus two hand-scripted Raft scenarios, with "
+                   "one-step lookahead) nor the random walks (quick: 30x300 attempts) reached a distinguishing state."),
 }
